@@ -83,6 +83,17 @@ pub fn run(args: &Args) -> i32 {
         };
         let initial = gen_list(rng);
         ctls[0].with(|p| p.default_protocols = initial.clone());
+        // some handlers report remote protocols in their very first poll
+        let mut remote_ref: BTreeSet<String> = BTreeSet::new();
+        let mut reports: Vec<String> = vec![];
+        if rng.chance(1, 3) {
+            let ps: Vec<String> = (0..1 + rng.usize(3)).map(|_| NAMES[rng.usize(5)].to_string()).collect();
+            for p in &ps {
+                remote_ref.insert(p.clone());
+            }
+            reports.push(format!("first-poll +{ps:?}"));
+            ctls[0].with(|p| p.initial_remote_reports = vec![(true, ps)]);
+        }
         let conn_cell = std::cell::Cell::new(None);
         let mut sink = |_: &mut Net<Probe>, i: usize, ev: SwarmEvent<ProbeEvent>| {
             if i == 0
@@ -101,8 +112,6 @@ pub fn run(args: &Args) -> i32 {
         let h = ctls[0].handler(conn).expect("handler");
         let mut lists: Vec<Vec<String>> = vec![initial.clone()];
         let mut current = initial;
-        let mut remote_ref: BTreeSet<String> = BTreeSet::new();
-        let mut reports: Vec<String> = vec![];
         let mut sig = Sig::new();
         let (mut had_dup_or_invalid, mut had_shrink) = (false, false);
         let steps = rng.range(4, 16);
@@ -131,7 +140,9 @@ pub fn run(args: &Args) -> i32 {
             if step == steps {
                 break;
             }
-            if rng.chance(2, 3) {
+            let batch = if rng.chance(1, 3) { 1 + rng.usize(3) } else { 1 };
+            for _ in 0..batch {
+            if rng.chance(1, 2) {
                 // new advertised list: mutate the current one or draw a fresh one
                 let mut next = if rng.bool() { gen_list(rng) } else { current.clone() };
                 match rng.usize(5) {
@@ -156,7 +167,7 @@ pub fn run(args: &Args) -> i32 {
                     sig.push_str(p);
                 }
                 sig.push_u64(0xfe);
-                if rng.bool() { h.set_protocols(next.clone()) } else { h.cmd(HCmd::SetProtocols(next.clone())) }
+                if batch == 1 && rng.bool() { h.set_protocols(next.clone()) } else { h.cmd(HCmd::SetProtocols(next.clone())) }
                 lists.push(next.clone());
                 current = next;
             } else {
@@ -173,6 +184,7 @@ pub fn run(args: &Args) -> i32 {
                 reports.push(format!("{}{ps:?}", if added { "+" } else { "-" }));
                 sig.push_u64(if added { 1 } else { 2 });
                 h.cmd(HCmd::ReportRemote { added, protocols: ps });
+            }
             }
             if !net.run(100_000, &mut sink) {
                 check.inconclusive("not quiescent");
